@@ -155,6 +155,16 @@ def run(ctx):
                     ctx.ob("%s/%s" % (kind, nm), None, "model does not reproduce: %s" % real)
     # ---------------- tables vs pinned grammar snapshot (parameters, capabilities, extensions)
     snapshot_params(ctx, q, rp, P, snap, enums, masks)
+    # ---------------- the parser side once more, from MIR instead of tokens (per declared bit / pairs / all, per enumerant, also through
+    # the `parse_operand` arm itself): parser = pinned grammar; with reflection = pinned grammar above, parser = reflection
+    import c03
+    import parsersym
+    S_ = parsersym.Setting()
+    c03.mask_parameter_bits(ctx, S_, q, rp)
+    c03.enum_parameter_values(ctx, S_, q, rp)
+    irregular = [k for k, a in P["parse_operand"].items() if a.get("irregular")]
+    if irregular:
+        ctx.extra["irregular_parse_operand_arms"] = irregular
     # ---------------- id_ref_any / id_ref_any_mut
     id_ref_any(ctx, q, rp)
     # ---------------- From<T> / unwrap_*
@@ -318,13 +328,21 @@ def id_ref_any(ctx, q, rp):
                         ok = isinstance(payload, sym.Ref) and any(len(s_) > 3 and s_[3] == name for s_ in payload.path)
                 ctx.ob("%s/%s" % (fname, name), True if ok else False, None if ok else "returns %r" % (r.value,))
                 if not ok:
-                    real = rp.ask("id_ref_any %s 77" % name)
-                    got = real.get(fname, "?")
-                    if "error" in real or "panic" in real or got == (77 if want else None):
+                    confirmed = None
+                    for probe_ in (77, 0, 0xffffffff, 1):
+                        real = rp.ask("id_ref_any %s %d" % (name, probe_))
+                        got = real.get(fname, "?")
+                        if "error" in real:
+                            break
+                        if "panic" in real or got != (probe_ if want else None):
+                            confirmed = (probe_, got, real)
+                            break
+                    if confirmed is None:
                         ctx.inconclusive.append(("%s/%s" % (fname, name), "model-only deviation (%r); the compiled crate answers %s" % (r.value, real)))
                     else:
-                        ctx.violation("operand/%s/%s" % (fname, name), "Operand::%s(77): %s returns %s, expected %s" % (name, fname, got, "Some(77)" if want else "None"),
-                                      {"cmd": "id_ref_any %s 77" % name, "real": real})
+                        probe_, got, real = confirmed
+                        ctx.violation("operand/%s/%s" % (fname, name), "Operand::%s(%d): %s returns %s, expected %s" % (name, probe_, fname, got, ("Some(%d)" % probe_) if want else "None"),
+                                      {"cmd": "id_ref_any %s %d" % (name, probe_), "real": real})
 
 
 def from_unwrap(ctx):
